@@ -469,17 +469,14 @@ func r045as(c *an.Ctx, rule string) {
 			if f == nil {
 				continue
 			}
-			var loop *ssa.BasicBlock
-			for _, b := range f.Blocks {
-				if b.Comment == "rangechan.loop" {
-					loop = b
-				}
+			var loop, body *ssa.BasicBlock
+			for _, rl := range an.RecvLoops(f) {
+				loop, body = rl.Header, rl.Body
 			}
 			if loop == nil {
 				c.Unk(rule, name+"|suppression only by configuration", f.Pos(), "update loop not found")
 				continue
 			}
-			body := loop.Succs[0]
 			// A "direct skip edge" is a conditional edge from which the loop header is reached without any
 			// further branch or send. Exactly two kinds are allowed: include's negative verdict and a true
 			// result of the configured equivalence; the `equivalence == nil` edge must not skip.
